@@ -91,6 +91,13 @@ Reply(a) ==
     [] a.op = "clear"  -> 0
     [] a.op = "setcap" -> 0
     [] a.op = "mut"    -> 0
+    \* the getters are methods of their own (each one mutex hold): what they return is what the ideal
+    \* cache holds at the instant they take effect, also between other callers' operations
+    [] a.op = "qlen"   -> Len(order)
+    [] a.op = "qsize"  -> size
+    [] a.op = "qcap"   -> cap
+    [] a.op = "qev"    -> evict
+    [] a.op = "qstats" -> [len |-> Len(order), size |-> size, cap |-> cap, ev |-> evict]
     [] OTHER           -> 0
 
 Do(a) ==
@@ -103,7 +110,7 @@ Do(a) ==
     [] a.op = "get" ->
          /\ order' = IF Has(a.k) THEN Front(order, a.k) ELSE order
          /\ UNCHANGED <<val, sz, size, cap, evict, sized>>
-    [] a.op \in {"peek", "exist"} -> UNCHANGED vars
+    [] a.op \in {"peek", "exist", "qlen", "qsize", "qcap", "qev", "qstats"} -> UNCHANGED vars
     [] a.op = "del" ->
          IF Has(a.k)
          THEN /\ order' = Without(order, a.k) /\ val' = Rem(val, a.k) /\ sz' = Rem(sz, a.k)
@@ -133,7 +140,7 @@ CONSTANTS KeySet, ValSet, SizeSet, CapSet
 Acts ==
        [op : {"set", "setx", "setnx"}, k : KeySet, v : ValSet, s : SizeSet]
   \cup [op : {"get", "peek", "exist", "del"}, k : KeySet]
-  \cup [op : {"clear"}]
+  \cup [op : {"clear", "qlen", "qsize", "qcap", "qev", "qstats"}]
   \cup [op : {"setcap"}, c : CapSet]
 
 Init == \E c \in CapSet, s \in BOOLEAN : InitWith(c, s)
@@ -151,7 +158,7 @@ Bounded    == SumSz(order) <= cap                 \* after every operation
 TinyCounts == ~sized => \A k \in Keys : sz[k] = 1
 
 (* read-only methods are read-only; Get/SetIfAbsent only reorder *)
-ReadOnly == [][last'.op \in {"peek", "exist"} => UNCHANGED vars]_allvars
+ReadOnly == [][last'.op \in {"peek", "exist", "qlen", "qsize", "qcap", "qev", "qstats"} => UNCHANGED vars]_allvars
 Reorders == [][last'.op \in {"get"} => UNCHANGED <<val, sz, size, cap, evict>> /\ Keys' = Keys]_allvars
 
 (* Evictions take strictly the least recently used entries: whatever     *)
